@@ -13,7 +13,9 @@ MODULE = "DaliVerif.Props.C07"
 EXES = ["m_gearseq"]
 GEN = False
 THEOREMS = ["findNext_spec", "findNext_run", "findNext_run_full", "commissioning_ends_with_terminate",
-            "commissioning_all_disabled"]
+            "commissioning_all_disabled", "bus_counts", "findNext_on_bus", "inner_step", "round_inv_partial",
+            "commissioning_addresses", "commissioning_count", "commissioning_raise", "commissioning_bound",
+            "commissioning_terminates", "commissioning_others", "commissioning_dry"]
 TRUSTED = ["hand-written models Model/GearSeq.lean of _find_next and Commissioning (dali/sequences.py), tied by "
            "lock-step execution of the real generator (every command, progress and sleep object)",
            "specification bus Spec/GearBus.lean: my reading of IEC 62386-102 random addressing (INITIALISE, RANDOMISE, "
@@ -21,26 +23,40 @@ TRUSTED = ["hand-written models Model/GearSeq.lean of _find_next and Commissioni
            "PROGRAM SHORT ADDRESS also act on withdrawn units); clause checker Spec/GearComm.lean"]
 ASSUMPTIONS = ["two or more simultaneous YES answers are seen as a framing error (physical collision detection)",
                "the permitted list is duplicate-free and within 0..63",
-               "clashing units eventually draw different random addresses (otherwise the real loop does not end)"]
-PARTIAL = ("proved: the binary search (findNext_spec: least enabled random address / clash / none, for every population "
-           "and every interval; findNext_run: the generator model computes exactly that against any environment that "
-           "answers COMPARE by counting, within 8*depth+4 commands, leaving the search address at the unit found), and "
-           "for every environment whatsoever: a normal return ends with TERMINATE and every unit of the bus is then "
-           "DISABLED. NOT proved (stated in Props/C07.lean as comments, checked on every lock-step run by commCheck "
-           "instead): the one-round invariant and commissioning_spec (distinct / permitted / in-use / non-participants "
-           "/ dry-run / count / bound / ProgramShortAddressFailure) and the refinement 'specification bus restricted to "
-           "search+compare is a counting environment'.")
-LEVEL_TEXT = ("Lean 4 theorems: findNext_spec (any population of random addresses, any interval: the search returns the "
-              "least enabled address, clash exactly when it is shared, none exactly when there is none), findNext_run "
-              "(the model of _find_next computes it, with a command bound and the final search address), and for every "
-              "environment: normal return => last command TERMINATE => all units disabled. The remaining clauses of the "
-              "property (distinct, permitted, unused, non-participants untouched, dry run, count, command bound, "
-              "ProgramShortAddressFailure) are NOT theorems yet: they are evaluated by the Lean checker commCheck on the "
-              "real generator's behaviour in every lock-step scenario (sampled).")
-LEVEL_NOTE = ("Partial proof. Trusted beyond the kernel: the specification bus, the clause checker, and the sampled "
-              "lock-step tie (0..70 units, duplicates, permitted sets 0/1/63/64, engineered clash streams, faults at "
-              "every position).")
-TECHNIQUE = ("Lean 4 proof (induction on the search interval; trace-shape lemmas over the resumption program) + "
+               "random addresses and all future draws are 24-bit (hypothesis WF of the bus theorems)",
+               "clashing units eventually draw different random addresses (otherwise the real loop does not end; "
+               "hypothesis of commissioning_terminates: the participants' draws of some round are pairwise distinct)"]
+PARTIAL = ("proved in Lean for every bus size, every population, every stream of random draws (by induction on the "
+           "loop budgets, no sampling): the binary search (findNext_spec, findNext_run); bus_counts (the specification "
+           "bus restricted to SEARCHADDR+COMPARE is a counting environment) and findNext_on_bus; inner_step (one "
+           "iteration: program / verify / withdraw act on exactly the unit found); round_inv_partial (one RANDOMISE "
+           "round); and for the whole sequence: ends with TERMINATE, all units DISABLED, addresses handed out are a "
+           "prefix of the permitted-and-unused list hence pairwise distinct, permitted, not in use "
+           "(commissioning_addresses), a normal return handed out min(#participants, #permitted left) "
+           "(commissioning_count), non-participants keep their address (commissioning_others), a dry run changes no "
+           "short address and programs nothing (commissioning_dry), the only exception is ProgramShortAddressFailure, "
+           "directly after an unconfirmed VERIFY, only with a faulty unit (commissioning_raise), at most "
+           "rounds*(n+1)*202+140 commands (commissioning_bound), and the round budget is not exhausted once the "
+           "participants' draws of some round are pairwise distinct (commissioning_terminates). NOT proved (checked "
+           "by commCheck on every lock-step run instead): the 'holds' clause (after a single-round, fault-free, "
+           "non-dry run the participants hold exactly the addresses handed out; per iteration it is inner_step, the "
+           "accumulation over the round is missing, which is also the last conjunct of round_inv) and the packaging "
+           "of the separate clause theorems into the literal equation commCheck ... = [].")
+LEVEL_TEXT = ("Lean 4 theorems about the model of _find_next / Commissioning run against the specification bus, for every "
+              "bus size and every random-draw stream: the search returns the least enabled random address / clash / "
+              "none (findNext_spec, findNext_run, bus_counts, findNext_on_bus); one iteration programs, verifies and "
+              "withdraws exactly the unit found (inner_step); one round (round_inv_partial); the whole sequence ends "
+              "with TERMINATE with every unit DISABLED, hands out pairwise distinct, permitted, unused addresses in "
+              "list order, min(#participants, #permitted left) of them, leaves non-participants alone, changes "
+              "nothing in a dry run, raises only ProgramShortAddressFailure (after an unconfirmed VERIFY, faulty unit "
+              "present), within rounds*(n+1)*202+140 commands, and terminates once the participants' draws of some "
+              "round are pairwise distinct. Not a theorem: the final 'participants hold exactly the addresses handed "
+              "out' clause for single-round runs (evaluated by commCheck on the sampled lock-step runs).")
+LEVEL_NOTE = ("Partial proof (one clause, 'holds', and the literal commCheck = [] packaging missing). Trusted beyond the "
+              "kernel: the specification bus, the clause checker, and the sampled lock-step tie model = code (0..70 "
+              "units, duplicates, permitted sets 0/1/63/64, engineered clash streams, faults at every position).")
+TECHNIQUE = ("Lean 4 proof (induction on the search interval and on the loop budgets; simulation bus ~ counting "
+             "environment; per-unit views; trace-class lemmas over the resumption program) + "
              "lock-step model-vs-code correspondence and property-clause evaluation against the Lean specification bus")
 
 HI = 0xFFFFFF
